@@ -328,7 +328,7 @@ func genCase(t *rapid.T) mcase {
 		c.Adjs = append(c.Adjs, a)
 	}
 	c.Perm = map[string]string{}
-	switch rapid.IntRange(0, 5).Draw(t, "permkind") {
+	switch rapid.IntRange(0, 6).Draw(t, "permkind") {
 	case 0, 1: // base combination
 		for _, d := range names {
 			if len(c.Setup[d]) > 0 {
@@ -350,6 +350,28 @@ func genCase(t *rapid.T) mcase {
 	case 4: // random mix
 		for _, d := range names {
 			c.Perm[d] = rapid.SampledFrom(append(vals, "new", "fresh")).Draw(t, "pv")
+		}
+	case 5: // boundary shift: the same characters split differently between two dimensions of an adjustment
+		if len(names) >= 2 && len(c.Adjs) > 0 {
+			ai := rapid.IntRange(0, len(c.Adjs)-1).Draw(t, "shiftadj")
+			if sameDims(c.Adjs[ai].With, c.Setup) {
+				ds := append([]string{}, names...)
+				sort.Strings(ds)
+				i := rapid.IntRange(0, len(ds)-2).Draw(t, "shiftdim")
+				sep := rapid.SampledFrom([]string{",", "|", ":", " ", "/", "\x00", "", "=", ";"}).Draw(t, "sep")
+				u, v, w := "u", "v", "w"
+				c.Adjs[ai].With[ds[i]] = u + sep + v
+				c.Adjs[ai].With[ds[i+1]] = w
+				for d, x := range c.Adjs[ai].With {
+					c.Perm[d] = x
+				}
+				c.Perm[ds[i]] = u
+				c.Perm[ds[i+1]] = v + sep + w
+				break
+			}
+		}
+		for _, d := range names {
+			c.Perm[d] = val.Draw(t, "pv")
 		}
 	default: // wrong arity / unknown dimension
 		for _, d := range append(append([]string{}, names...), "unknown") {
